@@ -130,7 +130,9 @@ func (lsm *LSM) VerifLocate(cf kv.ColumnFamily, userKey []byte) []VerifSource {
 	for _, lh := range lsm.levels.levels {
 		lh.RLock()
 		if lh.levelNum == 0 {
-			for _, t := range lh.tables {
+			// lookup order: newest table first
+			for i := len(lh.tables) - 1; i >= 0; i-- {
+				t := lh.tables[i]
 				scan(t.NewIterator(&utils.Options{IsAsc: true}), "l0", 0, t.fid)
 			}
 		} else {
